@@ -291,6 +291,90 @@ fn production_block(ctx: &Ctx) {
     });
 }
 
+/// The public entry points (header parsing included) over a family of conforming read schedules: every constant
+/// size 1..=140, "first n then everything" for every n up to past the larger header, a few mixed lists, and
+/// random small sizes. Oracle: the result is the one of the whole-buffer run (plaintext for decrypt, a complete
+/// conforming file holding exactly the plaintext for encrypt - chunk boundaries legitimately follow the reads), whatever the schedule.
+fn entry_point_schedules(ctx: &Ctx) {
+    let mut scheds: Vec<Sched> = Vec::new();
+    for k in 1..=140usize {
+        scheds.push(Sched::fixed(k));
+    }
+    for n in 1..=140usize {
+        scheds.push(Sched::list(vec![n], 1 << 20));
+        scheds.push(Sched::list(vec![n, 1], 4096));
+    }
+    for l in [vec![3usize, 4096], vec![4, 32, 1], vec![4, 31, 2], vec![2, 2, 32, 96, 1], vec![35, 1, 96, 1], vec![131, 2], vec![100, 200, 300], vec![50, 250, 100, 200], vec![1, 2, 3, 5, 8, 13, 21, 34, 55, 89]] {
+        scheds.push(Sched::list(l, 65536));
+    }
+    let lens: Vec<usize> = ctx.tier.pick(vec![0, 1, 37, 700, 65536 + 9], vec![0, 1, 2, 37, 131, 132, 700, 65535, 65536, 65536 + 9, 65536 * 2]);
+    let mut rng0 = Rng::fork(ctx.seed, "C10-entry");
+    for _ in 0..ctx.tier.pick(20, 200) {
+        scheds.push(Sched::random(&mut rng0, 24, 200));
+    }
+    ctx.note("entry_point_schedules", json!({"schedules": scheds.len(), "plaintext_lengths": lens, "modes": ["key", "password"], "directions": ["decrypt (read schedule)", "encrypt (read schedule)"]}));
+    let k = fresh_keys(&mut rng0);
+    let (e, pl, salt) = (rng0.arr32(), rng0.arr32(), rng0.arr32());
+    let pw = b"entry point password".to_vec();
+    // password mode costs one scrypt per run: a sample of the schedules (all the "first n then everything" up to 40, every 7th of the rest)
+    let work: Vec<(usize, usize, bool)> = (0..lens.len()).flat_map(|li| (0..scheds.len()).flat_map(move |si| [(li, si, true), (li, si, false)])).collect();
+    let pass_len_ok = |li: usize| li < 3;
+    par_for(work.len(), crate::util::ncpu(), |i| {
+        let (li, si, keymode) = work[i];
+        let mut rng = Rng::fork(ctx.seed, &format!("C10-entry-pt-{}", li));
+        let pt = rng.bytes(lens[li]);
+        let sched = scheds[si].clone();
+        let io = Io::new(sched.clone(), Sched::all());
+        if keymode {
+            let clean = key_encrypt_run(&pt, &Io::plain(), &KeyEnc { s_priv: &k.s_priv, s_pub: &k.s_pub, r_pub: &k.r_pub, e_priv: Some(e), payload: Some(pl) });
+            if !clean.outcome.is_ok() {
+                return;
+            }
+            let case = |dir: &str| json!({"direction": dir, "len": lens[li], "plaintext": hex_short(&pt, 32), "sender_private": hex(&k.s_priv), "recipient_private": hex(&k.r_priv), "ephemeral": hex(&e), "payload_key": hex(&pl), "read_schedule": sched.describe()});
+            let d = key_decrypt_run(&clean.out, &io, &k.r_priv, &k.r_pub);
+            ctx.eval();
+            if !(d.outcome.is_ok() && d.out == pt) {
+                ctx.violation("C10:entry:key_decrypt-result-depends-on-read-schedule", case("key_decrypt"));
+                return;
+            }
+            let en = key_encrypt_run(&pt, &io, &KeyEnc { s_priv: &k.s_priv, s_pub: &k.s_pub, r_pub: &k.r_pub, e_priv: Some(e), payload: Some(pl) });
+            ctx.eval();
+            // chunk boundaries legitimately follow the reads: the file must be a complete conforming file holding exactly the plaintext
+            let back = refspec::decode_key_file(&en.out, &k.r_priv, &k.r_pub);
+            if !en.outcome.is_ok() || !back.map(|d| d.body.complete() && d.body.plaintext() == pt).unwrap_or(false) {
+                ctx.violation("C10:entry:key_encrypt-result-depends-on-read-schedule", case("key_encrypt"));
+                return;
+            }
+            ctx.seen("entry: key mode, schedule-independent result");
+            ctx.distinct(&format!("entry|key|{}|{}", li, si));
+        } else {
+            if !(pass_len_ok(li) && (si % 7 == 0 || (140..140 + 80).contains(&si))) {
+                return;
+            }
+            let clean = pass_encrypt_run(&pt, &Io::plain(), &pw, salt);
+            if !clean.outcome.is_ok() {
+                return;
+            }
+            let case = |dir: &str| json!({"direction": dir, "len": lens[li], "plaintext": hex_short(&pt, 32), "password": hex(&pw), "salt": hex(&salt), "read_schedule": sched.describe()});
+            let d = pass_decrypt_run(&clean.out, &io, &pw);
+            ctx.eval();
+            if !(d.outcome.is_ok() && d.out == pt) {
+                ctx.violation("C10:entry:pass_decrypt-result-depends-on-read-schedule", case("pass_decrypt"));
+                return;
+            }
+            let en = pass_encrypt_run(&pt, &io, &pw, salt);
+            ctx.eval();
+            let back = refspec::decode_pass_file(&en.out, &pw);
+            if !en.outcome.is_ok() || !back.map(|d| d.body.complete() && d.body.plaintext() == pt).unwrap_or(false) {
+                ctx.violation("C10:entry:pass_encrypt-result-depends-on-read-schedule", case("pass_encrypt"));
+                return;
+            }
+            ctx.seen("entry: password mode, schedule-independent result");
+            ctx.distinct(&format!("entry|pass|{}|{}", li, si));
+        }
+    });
+}
+
 /// Real OS faults through the CLI: every failing sink/source must give exit 1 and an Error: line.
 fn cli_block(ctx: &Ctx) {
     let mut rng = Rng::fork(ctx.seed, "C10-cli");
@@ -403,6 +487,7 @@ pub fn run(ctx: &Ctx) {
     ctx.assume("Interrupted is the only transient kind; std's read_exact/write_all retry it");
     small_block(ctx);
     production_block(ctx);
+    entry_point_schedules(ctx);
     if !crate::lib_only() {
         cli_block(ctx);
     }
@@ -414,6 +499,8 @@ pub fn run(ctx: &Ctx) {
     ctx.require("small-decrypt: Write fault -> error", 100);
     ctx.require("production-key-encrypt: Write fault -> error", 5);
     ctx.require("production-pass-decrypt: Read fault -> error", 5);
+    ctx.require("entry: key mode, schedule-independent result", 500);
+    ctx.require("entry: password mode, schedule-independent result", 50);
     ctx.require("cli: OS fault", 10);
     ctx.require("cli: OS short write", 6);
 }
